@@ -59,6 +59,19 @@ func init() {
 		},
 	})
 	core.Register(&core.Property{
+		ID:         "C13",
+		Decided:    "Decides that the four generated interpreters (and their template) have the same handler for every opcode, that the compact and indent marshaler helpers take the same decisions apart from the formatter call, that the colour wrappers only bracket the plain helpers with one format's header and footer, that each option combination dispatches to the interpreter it names, that every entry point resets the pooled flags and sets the same defaults, and that the separator protocol is consistent per package (C03.R3); it does not decide byte equality of the outputs.",
+		NotCovered: "byte equality of outputs across variants, the relation MarshalIndent(v) == Indent(Marshal(v)), UnorderedMap's effect, top-level vs pointer vs interface encodings.",
+		Rules: []*core.Rule{
+			{ID: "C13.R1", Title: "for every opcode case, Run of vm_indent, vm_color, vm_color_indent has the same normal form (comments, layout, local names ignored) as vm.Run; prologue/epilogue agree; the generator template equals vm.Run", Covers: "all interpreter variants execute the same program the same way", Min: 1000, Run: c13r1},
+			{ID: "C13.R2", Title: "AppendMarshalJSON/AppendMarshalJSONIndent and AppendMarshalText/…Indent have equal statement normal forms once the formatter call (compact/doIndent) is dropped", Covers: "marshaler values encode identically with and without indentation", Min: 2, Run: c13r2},
+			{ID: "C13.R3", Title: "each vm_color*/helper that replaces an encoder alias of the plain package takes one ColorScheme format, appends its Header once, calls the same encoder function, and appends that format's Footer", Covers: "Colorize output equals the plain output once markers are removed", Min: 12, Run: c13r3},
+			{ID: "C13.R4", Title: "in encodeRunCode/encodeRunIndentCode the callee under each (Debug, Colorize) combination is Run/DebugRun of the package the combination names", Covers: "Debug and Colorize select the matching interpreter", Min: 8, Run: c13r4},
+			{ID: "C13.R5", Title: "every function that takes an encoder RuntimeContext first assigns Flag = 0, then sets NormalizeUTF8Option and HTMLEscapeOption plus only the flag naming the entry", Covers: "Encoder.Encode, MarshalNoEscape, MarshalContext and Marshal start from the same option state", Min: 20, Run: c13r5},
+			{ID: "C03.R3", Title: "separator width protocol per VM package (shared with C03)", Covers: "no variant leaves or eats a separator", Min: 60, Run: c03r3},
+		},
+	})
+	core.Register(&core.Property{
 		ID:         "C14",
 		Decided:    "Decides that the per-type program caches are indexed only after both address bounds were tested, that lookup, compile and store use the same key, that the race and non-race variants differ only by lock statements, and that the caches are sized with the same shift they are indexed with; it does not decide that the index is injective for the linker's actual layout.",
 		NotCovered: "injectivity of (addr-base)>>shift for the real type-descriptor layout (AnalyzeTypeAddr infers the alignment from a running minimum at run time).",
